@@ -149,6 +149,8 @@ class Interp:
             return SpecFunc(n, self.registry.specs[n])
         if n in self.registry.consts:
             return self.const_value(self.registry.consts[n])
+        if n in self.registry.ufuncs:
+            return UFunc(n)
         mod = env.module
         if mod is not None:
             if n in mod.consts:
@@ -165,7 +167,7 @@ class Interp:
         for m2 in self.index.modules.values():
             if n in m2.functions:
                 return FuncRef(m2, m2.functions[n])
-        if n in ("math", "os", "time", "binascii", "logging", "ipaddress", "struct", "events", "tls"):
+        if n in ("math", "os", "time", "binascii", "logging", "ipaddress", "struct", "events", "tls") or n in self.registry.module_names:
             return ModRef(n)
         raise Unsupported("unbound name %s" % n)
 
@@ -198,6 +200,12 @@ class Interp:
         if isinstance(base, ModRef):
             if base.name == "math" and attr == "inf":
                 raise Unsupported("math.inf")
+            if "%s.%s" % (base.name, attr) in self.registry.consts:
+                # constant of an external module declared in a sidecar (e.g. ssl.CERT_NONE)
+                return self.const_value(self.registry.consts["%s.%s" % (base.name, attr)])
+            if base.name in self.registry.module_names:
+                # declared external module: its attributes are external, never repository classes/functions of the same name
+                return ModAttr(base.name, attr)
             c = self.index.cls(attr)
             if c is not None:
                 return ClassRef(c)
@@ -238,6 +246,12 @@ class Interp:
             raise Unsupported("unknown attribute %s.%s" % (ty.cls, attr))
         if ty in (TBytes, TStr) or isinstance(ty, (TList, TDict, TSet)):
             return BoundMethod(base, None, attr)
+        if ty == TAny and not self.spec:
+            # data attribute of an opaque external object: an unconstrained opaque value (fresh at every read, so
+            # nothing is assumed about it - not even that two reads agree); may be absent
+            if not self.ctx.branch(self.ctx.fresh_const(z3.BoolSort(), "hasattr_" + attr)):
+                raise PyRaise("AttributeError", implicit="opaque object without attribute %s" % attr, site=getattr(node, "lineno", None))
+            return V(TAny, self.ctx.fresh_const(z3.IntSort(), "anyattr_" + attr))
         raise Unsupported("attribute %s of %s" % (attr, ty))
 
     def e_UnaryOp(self, node, env):
@@ -362,6 +376,53 @@ class Interp:
             if isinstance(x, ast.FormattedValue):
                 self.eval(x.value, env)
         return V(TStr, self.ctx.fresh_const(sym.StrSort, "fstr"))
+
+    def e_ListComp(self, node, env):
+        """[elt for x in <range(...) | list>]  (one generator, no condition), SOUND OVER-APPROXIMATION:
+        the element expression is executed once for an ARBITRARY position of the iterable (so every exception an
+        element can raise is explored, on a path where such an element exists); the result is a list of the right
+        length whose elements are unconstrained values of the element's type.  An element expression that writes the
+        heap (directly or through a callee's modifies) is not supported."""
+        if self.spec or len(node.generators) != 1:
+            raise Unsupported("comprehension")
+        g = node.generators[0]
+        if g.ifs or g.is_async or not isinstance(g.target, ast.Name):
+            raise Unsupported("comprehension with condition / pattern target")
+        it = g.iter
+        if isinstance(it, ast.Call) and isinstance(it.func, ast.Name) and it.func.id == "range" and 1 <= len(it.args) <= 2:
+            r = [sym.as_int(self.unopt(self.evalv(a, env), node)) for a in it.args]
+            lo, hi = (I(0), r[0]) if len(r) == 1 else (r[0], r[1])
+            n = z3.If(hi > lo, hi - lo, I(0))
+            k = self.ctx.fresh_const(z3.IntSort(), "comp_i")
+            item = V(TInt, k)
+            inside = z3.And(lo <= k, k < hi)
+        else:
+            seq = self.evalv(it, env)
+            if not isinstance(seq.ty, TList):
+                raise Unsupported("comprehension over %s" % seq.ty)
+            n = sym.list_len(seq)
+            k = self.ctx.fresh_const(z3.IntSort(), "comp_i")
+            item = V(seq.ty.elem, z3.Select(sym.list_arr(seq), k))
+            inside = z3.And(0 <= k, k < n)
+        if not self.ctx.branch(n > 0):
+            return EmptyLiteral("list")  # nothing is evaluated for an empty iterable
+        self.ctx.assume(inside)
+        for f in sym.wf(item):
+            self.ctx.assume(f)
+        loc = dict(env.locals)
+        loc[g.target.id] = item
+        before = dict(self.heap.arrays)
+        e2 = env.child(loc)
+        e2.contract, e2.fname, e2.anchors = None, getattr(env, "fname", "?"), {}
+        elt = self.evalv(node.elt, e2)
+        after = self.heap.arrays
+        for k2, arr in after.items():
+            # unchanged, or a field array first READ here (lazily created entry-heap constant)
+            if not (arr.eq(before[k2]) if k2 in before else (z3.is_const(arr) and arr.decl().name() == "%s_%s.%s" % (self.heap.tag, k2[0], k2[1]))):
+                raise Unsupported("comprehension element with side effects")
+        res = sym.fresh(TList(elt.ty), self.ctx.fresh_name("comp"))
+        self.ctx.assume(sym.list_len(res) == n)
+        return res
 
     def e_Lambda(self, node, env):
         return Closure(node, env)
@@ -569,6 +630,9 @@ class Interp:
 
     def identical(self, a, b):
         if isinstance(a, PyObj) or isinstance(b, PyObj):
+            other = b if isinstance(a, PyObj) else a
+            if type(a if isinstance(a, PyObj) else b).__name__ == "ExcValue" and isinstance(other, V) and other.ty == TNone:
+                return z3.BoolVal(False)  # an exception object is not None
             raise Unsupported("`is` on python objects")
         if a.ty == TNone or b.ty == TNone:
             return sym.equal(a, b)
@@ -751,6 +815,20 @@ class Interp:
 class EmptyLiteral(PyObj):
     def __init__(self, kind):
         self.kind = kind
+
+
+class UFunc(PyObj):
+    """uninterpreted spec function declared with R.ufunc"""
+
+    def __init__(self, name):
+        self.name = name
+
+
+class StarArg(PyObj):
+    """`*expr` call argument whose value is an opaque tuple (only external stubs / *varargs parameters accept it)"""
+
+    def __init__(self, v):
+        self.v = v
 
 
 class ModAttr(PyObj):
